@@ -80,7 +80,7 @@ package evaluator
 //@   modifies nothing
 
 //@ func (e *Evaluator) Eval
-//@   requires node != nil && WFNode(node) && env != nil
+//@   requires WFN(node) && env != nil
 //@   use wfExpressionStmt(as(node, *ast.ExpressionStmt))
 //@   use wfInfixExp(as(node, *ast.InfixExp))
 //@   ensures result != nil
